@@ -59,9 +59,15 @@ Definition cues_eqb (a b : list cue) : bool :=
   (length a =? length b)%nat &&
   forallb (fun p => (fst (fst p) =? fst (snd p)) && (snd (fst p) =? snd (snd p))) (combine a b).
 
-(* property oracle: after the chain the times are the closed form; a second pass changes nothing *)
+(* equal at resolution u: a hop may keep more precision than its format's unit, never less *)
+Definition cues_close (u : Z) (a b : list cue) : bool :=
+  (length a =? length b)%nat &&
+  forallb (fun p => (fl u (fst (fst p)) =? fl u (fst (snd p))) && (fl u (snd (fst p)) =? fl u (snd (snd p)))) (combine a b).
+
+(* property oracle: after the chain the times equal the closed form at the coarsest resolution on
+   the chain; a second pass changes nothing at all *)
 Definition ok_chain (chain : list fmt) (cs : list cue) (pass1 pass2 : result (list cue)) : bool :=
   match pass1, pass2 with
-  | Ok o1, Ok o2 => cues_eqb (expected chain cs) o1 && cues_eqb o1 o2
+  | Ok o1, Ok o2 => cues_close (coarsest chain) (expected chain cs) o1 && cues_eqb o1 o2
   | _, _ => false
   end.
